@@ -65,6 +65,10 @@ def one(root, sid):
         if os.path.exists(junit):
             os.remove(junit)
     sh(f"git -C {wt} checkout -q -- . && git -C {wt} clean -fdq -- pandera")
+    # the suite takes long: other tools may have completed the file meanwhile — add the one field to what is there now
+    suite = meta["suite"]
+    meta = json.load(open(d + "/meta.json"))
+    meta["suite"] = suite
     json.dump(meta, open(d + "/meta.json", "w"), indent=1)
     print(sid, json.dumps(meta["suite"])[:300], flush=True)
 
